@@ -368,9 +368,43 @@ pub fn outcome_of(r: Result<Result<QRCode, fast_qr::qr::QRCodeError>, String>) -
     }
 }
 
+/// The crate's public surface is more than the builder: `datamasking::mask` (public, hidden from the docs),
+/// `QRCode::default(size)`, the text renderer. One build in eight is preceded, on the same thread, by a call of that
+/// other API on a hand-made value - usually of exactly the side the coming symbol will have. Whatever such a call
+/// leaves behind may not reach the build that follows.
+fn foreign_api_primer(cfg: &Config, h: u64) {
+    let mut rng = oracle::rng::Rng::new(oracle::rng::mix(h, 0xf0e1));
+    if !rng.chance(1, 8) {
+        return;
+    }
+    let side = match cfg.version {
+        Some(v) if rng.chance(3, 4) => 17 + 4 * v,
+        _ => 17 + 4 * (1 + rng.below(40)),
+    };
+    let _ = guarded(|| match rng.below(4) {
+        0 | 1 => {
+            let mut q = QRCode::default(side);
+            fast_qr::datamasking::mask(&mut q, MASKS[rng.below(8)]);
+            std::hint::black_box(&q);
+        }
+        2 => {
+            let mut q = QRCode::default(side);
+            for m in MASKS {
+                fast_qr::datamasking::mask(&mut q, m);
+            }
+            std::hint::black_box(&q);
+        }
+        _ => {
+            let q = QRCode::default(side);
+            std::hint::black_box(q.to_str());
+        }
+    });
+}
+
 /// Build through the public API.
 pub fn build(cfg: &Config) -> Outcome {
     let h = cfg.history_seed();
+    foreign_api_primer(cfg, h);
     outcome_of(guarded(|| cfg.builder().build().map(|q| transport(q, h))))
 }
 
@@ -452,6 +486,7 @@ impl Recorded {
 #[cfg(feature = "hooks")]
 pub fn build_recorded(cfg: &Config) -> (Outcome, Vec<Recorded>) {
     // the builder (and whatever earlier build its history contains) is prepared BEFORE the recorder is armed
+    foreign_api_primer(cfg, cfg.history_seed());
     let b = match guarded(|| cfg.builder()) {
         Ok(b) => b,
         Err(p) => return (Outcome::Panic(p), vec![]),
